@@ -551,6 +551,11 @@ type Actor struct {
 }
 
 // NewActor starts peer.Run.  info == nil means "metadata not known yet".
+// ActorEventCap is the capacity of the channel on which an Actor's peer
+// reports to the (absent) torrent.  A harness may lower it to play a torrent
+// that is not listening: the peer's notifications then queue up on its side.
+var ActorEventCap = 1 << 16
+
 func NewActor(ps *piece.Pieces, local bitmap.Bitmap, caps Caps, info []byte, proxy string, incoming bool) *Actor {
 	Init()
 	a, b := net.Pipe()
@@ -561,7 +566,7 @@ func NewActor(ps *piece.Pieces, local bitmap.Bitmap, caps Caps, info []byte, pro
 	p := peer.New(proxy, a, addr, incoming, res)
 	p.Pieces = ps
 	p.Log.SetOutput(discard{})
-	ac := &Actor{P: p, PS: ps, TorEvent: make(chan peer.TorEvent, 1<<16), TorDone: make(chan struct{}), Exited: make(chan struct{})}
+	ac := &Actor{P: p, PS: ps, TorEvent: make(chan peer.TorEvent, ActorEventCap), TorDone: make(chan struct{}), Exited: make(chan struct{})}
 	ac.R = Attach(b, caps)
 	go func() {
 		defer close(ac.Exited)
